@@ -1027,8 +1027,14 @@ func (c *Client) dialAndConnect(config *Config) (net.Conn, *bufio.Reader, error)
 	bufr, err := c.handshake(conn, config, clientID)
 	// ⚠️ delayed error check
 
-	done <- struct{}{}
-	e := <-abort
+	// The abort routine may be gone already.
+	var e error
+	select {
+	case done <- struct{}{}:
+		e = <-abort
+	case e = <-abort:
+		break
+	}
 	if e != nil {
 		// abort closed connection
 		return nil, nil, e
